@@ -128,6 +128,12 @@ type Docs struct {
 	S *model.Schema
 	R *mon.Rng
 	O *model.Oracle
+	// Deep > 0: unroll optional properties and array items along every path down to this
+	// depth, then stop (used to build documents that follow cycles of the type graph).
+	Deep int
+	// budget bounds the number of nodes a Deep document may get (branching cycles would
+	// otherwise grow exponentially); when it is used up optional parts are omitted.
+	budget int
 }
 
 func NewDocs(s *model.Schema, r *mon.Rng) *Docs {
@@ -135,7 +141,14 @@ func NewDocs(s *model.Schema, r *mon.Rng) *Docs {
 }
 
 // Conform returns a document intended to be accepted (the oracle still judges it).
-func (d *Docs) Conform() *model.Val { return d.conform(d.S.Root, 0) }
+func (d *Docs) Conform() *model.Val {
+	d.budget = 400
+	return d.conform(d.S.Root, 0)
+}
+
+func (d *Docs) unroll(depth int) bool {
+	return d.Deep > 0 && depth < d.Deep && d.budget > 0
+}
 
 func alternativesOf(n *model.Node) []model.OrItem {
 	if n.Kind == model.KRef {
@@ -203,10 +216,11 @@ func litToVal(lit string) *model.Val {
 
 func (d *Docs) conform(n *model.Node, depth int) *model.Val {
 	r := d.R
-	if depth > 12 {
+	d.budget--
+	if depth > 12+d.Deep {
 		return model.VNullV()
 	}
-	if n.BoolRule("nullable") && r.Chance(1, 6) {
+	if d.Deep == 0 && n.BoolRule("nullable") && r.Chance(1, 6) {
 		return model.VNullV()
 	}
 	if alts := alternativesOf(n); alts != nil {
@@ -260,7 +274,7 @@ func (d *Docs) conform(n *model.Node, depth int) *model.Val {
 		props, ap, _ := d.O.EffProps(n)
 		v := model.VObject()
 		for _, p := range props {
-			if d.O.Optional(p) && r.Chance(1, 2) {
+			if d.O.Optional(p) && ((d.Deep == 0 && r.Chance(1, 2)) || (d.Deep > 0 && !d.unroll(depth))) {
 				continue
 			}
 			key := p.Key
@@ -317,6 +331,12 @@ func (d *Docs) conform(n *model.Node, depth int) *model.Val {
 			hi = lo + 6
 		}
 		ln := r.Range(lo, hi)
+		if d.Deep > 0 {
+			ln = lo
+			if d.unroll(depth) && ln == 0 {
+				ln = 1
+			}
+		}
 		v := model.VArray()
 		for i := 0; i < ln; i++ {
 			j := i
